@@ -39,6 +39,15 @@ def main(tier, replay, t0):
                                               dict(base, rustc=[y.get("message") for y in
                                                                 diags][:3])))
                         break
+                else:
+                    bad = probes.unexpected_rejection(camp, c.id, x["id"])
+                    if bad:
+                        viol.append(Violation("module-rejected", bad[0].get("code") or "?",
+                                              "a module of the entry-point family is rejected by "
+                                              "rustc for a reason other than the permitted "
+                                              "bytemuck checks: %s" % bad[0].get("message"),
+                                              dict(base, rustc=[y.get("message") for y in
+                                                                bad][:3])))
                 continue
             ps = camp.probe_state(c.id, x["id"], "probe_c14")
             if not ps or not ps["accepted"]:
